@@ -8,6 +8,7 @@ mod c28;
 mod c29;
 mod c30;
 mod c31;
+mod c32;
 mod c33;
 
 use proptest::prelude::*;
@@ -43,6 +44,7 @@ fn main() {
         "C29" => c29::run(&mut check),
         "C30" => c30::run(&mut check),
         "C31" => c31::run(&mut check),
+        "C32" => c32::run(&mut check),
         "C33" => c33::run(&mut check),
         other => vcommon::harness_error(format!("genrun does not serve {other}")),
     }
